@@ -136,9 +136,13 @@ class AxolotlManager(object):
             self._group_ciphers[senderkeyname] = group_cipher
         return group_cipher
 
-    def _generate_random_padding(self):
+    def _generate_random_padding(self, message_length=0):
         logger.debug("generate_random_padding")
         num = random.randint(1,255)
+        if (message_length + num) % 16 == 0:
+            # python-axolotl does not add a cipher padding block to block aligned plaintext, the receiver's
+            # unpadding would then eat this padding and the message's end
+            num = num - 1 if num > 1 else num + 1
         return bytes(bytearray([num] * num))
 
     def _unpad(self, data):
@@ -160,7 +164,7 @@ class AxolotlManager(object):
         :rtype:
         """
         cipher = self._get_session_cipher(recipient_id)
-        return cipher.encrypt(message + self._generate_random_padding())
+        return cipher.encrypt(message + self._generate_random_padding(len(message)))
 
     def decrypt_pkmsg(self, senderid, data, unpad):
         logger.debug("decrypt_pkmsg(senderid=%s, data=(omitted), unpad=%s)" % (senderid, unpad))
@@ -208,7 +212,7 @@ class AxolotlManager(object):
         # see https://github.com/tgalal/yowsup/issues/2732
         logger.debug("group_encrypt(groupid=%s, message=[omitted])" % groupid)
         group_cipher = self._get_group_cipher(groupid, self._username)
-        return group_cipher.encrypt(message + self._generate_random_padding())
+        return group_cipher.encrypt(message + self._generate_random_padding(len(message)))
 
     def group_decrypt(self, groupid, participantid, data):
         logger.debug("group_decrypt(groupid=%s, participantid=%s, data=[omitted])" % (groupid, participantid))
